@@ -42,15 +42,8 @@ after reopen (NotImplementedError of lookup_tree_id counts as an abstention);
 maps to its sha, every revid to its commit), missing_revisions(s) = s \\ revids,
 and answers after reopen = answers before.
 
-Findings on the unchanged tree (families computed from the update sequence and
-the query):
-  sqlite-sha1s-bytes-encode     SqliteGitShaMap.sha1s() raises AttributeError on a
-                                non-empty map (`bytes.encode`);
-  index-write-group-name-clash  IndexGitShaMap names the index file of a write
-                                group after the shas fed to _add_git_sha, present
-                                or not: converting the same revision again in a
-                                later write group writes an empty index over the
-                                earlier file (answers lost after reopen);
+Known findings (committed in known_findings.json; families computed from the
+update sequence and the query — both are properties of the on-disk formats):
   index-one-entry-per-sha       lookup_git_sha on the index backend returns only
                                 the first entry ever recorded for a sha (same text
                                 under two file ids / in two revisions, unchanged
@@ -60,14 +53,16 @@ the query):
                                 (fileid, revid) deletes the first row
                                 (lookup_tree_id -> KeyError, lookup_git_sha shows
                                 only the newest key).
-The first two have a small patch (final report); with it a probe at the start
-of the run (`index_survives_name_clash`) turns the clash sequences into
-ordinary cases for the model.  The last two are properties of the on-disk
-formats.
+Fixed in /repo (26ff82f) and therefore plain VIOLATIONs if they return:
+SqliteGitShaMap.sha1s() raising AttributeError on a non-empty map, and
+IndexGitShaMap overwriting the .rix file of an earlier write group when the
+same revision is converted again (entries lost after reopen).  A probe at the
+start of the run (`index_survives_name_clash`) confirms the fixed behaviour;
+when it fails the probe itself is reported and the clash sequences are compared
+by the oracle only (the flat model describes the fixed behaviour).
 
-Mutants this was built against (scratch worktree = /repo HEAD + that patch; a
-mutant counts as caught when it produces violations outside the two remaining
-families or model mismatches; all caught on seeds 0 and 1 by the oracle with a
+Mutants this was built against (scratch worktree; a mutant counts as caught
+when it produces violations outside the two known families or model mismatches; all caught on seeds 0 and 1 by the oracle with a
 concrete sequence + query, and by T2):
   M1 SqliteGitShaMap.lookup_blob_id binds (revision, fileid) to (fileid, revid);
   M2 IndexGitShaMap._add_node adds to the builder although the key exists in a
@@ -82,6 +77,9 @@ concrete sequence + query, and by T2):
   M8 IndexGitShaMap._add_git_sha drops the testament;
   M9 SqliteGitShaMap.commit_write_group does not commit (reopen);
   M10 IndexGitShaMap.__init__ skips some .rix files (reopen);
+  R3 fix 26ff82f reverted: sha1s() of the sqlite backend raises AttributeError
+     and a write group applied twice wipes the index file — plain VIOLATIONs
+     (probe + corpus/C38/same-revision-converted-twice.json + every sha1s query);
   harmless: DictCacheUpdater's setdefault + assignment split in two statements;
   Sqlite lookup_blob_id with the WHERE conjuncts (and bindings) swapped — clean.
 """
@@ -515,8 +513,6 @@ def index_survives_name_clash():
 def classify(ops, q, name, ans, ref):
     """family of a disagreement between backend `name` (answer `ans`) and the
     in-memory backend (answer `ref`) on query q after `ops`; None = unexplained"""
-    if name == "sqlite" and q[0] == "S" and ans == "X:AttributeError" and ops:
-        return "sqlite-sha1s-bytes-encode"
     if name == "index" and q[0] == "g":
         es = entries_of(ops, q[1])
         if len(es) >= 2 and ans == es[0] and set(ref.split(",")) == set(es):
@@ -636,27 +632,14 @@ def run_sequence(ctx, source, groups, functional, sink):
                     ctx.case(dict(seq=seq_id, cp=gi, backend=n, phase=phase), nontrivial=shared or gi >= 1)
                     ctx.count("phase:%s:%s" % (phase, n))
                     mname = n if n != "tdb" else "dict"
-                    if n == "sqlite" and "X:AttributeError" in a:
-                        # sha1s() of the sqlite backend (family sqlite-sha1s-bytes-encode): reported by the
-                        # oracle below; the rest of the answers is still compared with the model
-                        keep = [i for i, x in enumerate(a) if not (x == "X:AttributeError" and qs[i][0] == "S")]
-                        sink[0].append(case)
-                        sink[1].append("run %s %s %s" % (mname, opline, ";".join(enc_query(qs[i]) for i in keep)))
-                        sink[2].append(";".join(a[i] for i in keep))
-                        if phase == "live" and not functional:
-                            ctx.violation(dict(case, query="S"), "sqlite backend: sha1s() raises AttributeError",
-                                          family="sqlite-sha1s-bytes-encode" if prefix else None)
-                    elif not (clash and n == "index"):
+                    if not (clash and n == "index"):
                         sink[0].append(case); sink[1].append("run %s %s %s" % (mname, opline, qline)); sink[2].append(";".join(a))
                     if phase == "live":
                         answers[n] = a
                     elif a != answers[n]:
                         i = next(i for i in range(len(a)) if a[i] != answers[n][i])
-                        fam = "index-write-group-name-clash" if (clash and n == "index") else None
-                        if functional or fam is None:
-                            ctx.violation(dict(case, query=enc_query(qs[i])),
-                                          "%s backend answers %s to %s after close/reopen, %s before" % (n, a[i], enc_query(qs[i]), answers[n][i]),
-                                          family=fam)
+                        ctx.violation(dict(case, query=enc_query(qs[i])),
+                                      "%s backend answers %s to %s after close/reopen, %s before" % (n, a[i], enc_query(qs[i]), answers[n][i]))
             if not functional:
                 ctx.count("nonfunctional-checkpoints")
                 # the override rule (the newest add of a key wins) on the two backends that implement it
@@ -674,8 +657,6 @@ def run_sequence(ctx, source, groups, functional, sink):
                 for q, what in direct_laws(prefix, qs, answers[n])[:6]:
                     i = [enc_query(x) for x in qs].index(enc_query(q))
                     fam = classify(prefix, q, n, answers[n][i], ref[i]) if n != "dict" else None
-                    if fam is None and clash and n == "index":
-                        fam = "index-write-group-name-clash"
                     ctx.violation(dict(base_case, backend=n, checkpoint=gi, query=enc_query(q)), "%s backend: %s" % (n, what), family=fam)
                 if n == "dict":
                     continue
@@ -686,8 +667,6 @@ def run_sequence(ctx, source, groups, functional, sink):
                             ctx.count("tree-id-abstention:%s" % n)
                         continue
                     fam = classify(prefix, q, n, answers[n][i], ref[i])
-                    if fam is None and clash and n == "index":
-                        fam = "index-write-group-name-clash"
                     ctx.count("disagree:%s:%s" % (n, fam or "unexplained"))
                     if reported < 4:
                         reported += 1
@@ -774,6 +753,10 @@ def run(ctx, nnative=None, nsyn=None):
     sink = ([], [], [], [])
     ctx.extra["backends"] = available_backends()
     ctx.extra["index_survives_name_clash"] = index_survives_name_clash()
+    if not index_survives_name_clash():
+        ctx.violation(dict(probe="index-name-clash", groups="the write group [blob, commit of probe-rev] applied twice, then reopen"),
+                      "index backend: converting the same revision again in a later write group loses its entries after reopen "
+                      "(the second write group's .rix file replaces the first)")
     ctx.extra["tdb"] = "available" if "tdb" in available_backends() else "module not importable: backend not exercised"
     for c in _corpus():
         groups = [[(bytes.fromhex(r), [dec_op(o) for o in ops]) for r, ops in g] for g in c["groups"]]
